@@ -555,6 +555,11 @@ impl DbInner {
 									}
 								}
 								drop(trees);
+								#[cfg(parity_db_verif)]
+								crate::verif::emit(
+									"UsedTrees",
+									&[commit.indexed.get(&col).map_or(0, |c| c.used_trees.len() as u64)],
+								);
 
 								let root_operation = Operation::Set(change.key(), root_data);
 								commit
